@@ -21,6 +21,9 @@ let words (s : n list) : string list =
 
 let oracle (w : z) (seg : n list) : z * z =
   match words seg with
+  | v :: _ when String.length v >= 3 && v.[0] = 'V' && String.contains v '=' -> (z_of_int 0, z_of_int 0)   (* assignment only *)
+  | "cd" :: _ -> (z_of_int 1, z_of_int 1)                (* cd to a missing directory *)
+  | "nosuchcmd_zz" :: _ -> (z_of_int 127, z_of_int 127)  (* command not found *)
   | _ :: ctl :: _ when String.length ctl >= 2 && String.sub ctl 0 2 = "@x" ->
       let st = String.sub ctl 2 (String.length ctl - 2) in
       let v = if st = "$?" then int_of_z w else (try int_of_string st with _ -> 127) in
